@@ -99,9 +99,11 @@ class Injector:
     """
 
     def __init__(self, mode, at=None, files=None, sig=signal.SIGINT, on_kill=None,
-                 record_at=False, only_in=None):
+                 record_at=False, only_in=None, at2=None):
         self.mode = mode
         self.at = at
+        self.at2 = at2      # abort mode: a second signal this many line events after the first
+        self.fired2 = None
         self.files = tuple(files or (os.path.join(SRC_REAL, "conductor"),))
         self.sig = sig
         self.count = 0
@@ -153,6 +155,10 @@ class Injector:
                 self.on_kill(self)
                 os._exit(0)
             return self.local
+        if (self.mode == "abort" and self.at2 and self.fired is not None and not self.pending
+                and self.fired2 is None and self.count >= self.fired["count"] + self.at2):
+            self._second(frame)
+            return self.local
         if self.mode == "count" or self.fired is not None and not self.pending:
             return self.local
         if self.count == self.at or self.pending:
@@ -185,6 +191,48 @@ class Injector:
                         raise KeyboardInterrupt
                     os._exit(128 + int(self.sig))
         return self.local
+
+    def profiler(self, frame, event, arg):
+        """CPython switches tracing off when a trace function raises (which is how the
+        first signal is delivered); the profile hook is not affected, so the next
+        call/return event switches line tracing back on for the second signal."""
+        if self.fired is None or self.fired2 is not None or sys.gettrace() is not None:
+            return
+        sys.settrace(self.tracer)
+        win = 0
+        # a frame that is returning gets no further trace events
+        f = frame.f_back if event == "return" else frame
+        while f is not None:
+            if self._want(f.f_code.co_filename):
+                if self.only_in and f.f_code.co_name in self.only_in:
+                    win += 1
+                    f.f_trace = self.local_window_root
+                else:
+                    f.f_trace = self.local
+            f = f.f_back
+        self._win = win
+
+    def _second(self, frame):
+        """A second signal while the first one is being handled."""
+        if self.sig in signal.pthread_sigmask(signal.SIG_BLOCK, []):
+            return  # stays pending in the kernel; try again at the next line
+        first = self.fired
+        self._mark(frame)
+        self.fired2, self.fired = self.fired, first
+        h = signal.getsignal(self.sig)
+        if callable(h):
+            self.fired2["disposition"] = "handler"
+            h(self.sig, frame)
+        elif h == signal.SIG_IGN:
+            self.fired2["disposition"] = "ignored"
+        else:
+            self.fired2["disposition"] = "default"
+            if self.sig == signal.SIGINT:
+                raise KeyboardInterrupt
+            self.died_by_default = True
+            if self.on_kill is not None:
+                self.on_kill(self)
+            os._exit(128 + int(self.sig))
 
     def _mark(self, frame):
         stack = []
@@ -266,6 +314,10 @@ def _child(wfd, root, argv, cwd, kspec, inject, env, pre, post, want_events):
         inj = None
         if inject is not None:
             def on_kill(injector):
+                if getattr(injector, "died_by_default", False):
+                    res["inject2"] = injector.fired2
+                    send({"status": 128 + int(injector.sig), "lines": injector.count})
+                    return
                 res["inject"] = injector.fired
                 if k is not None:
                     res["inject"]["live"] = [p.pid for p in k.procs.values()
@@ -286,10 +338,13 @@ def _child(wfd, root, argv, cwd, kspec, inject, env, pre, post, want_events):
         try:
             if inj is not None:
                 sys.settrace(inj.tracer)
+                if inj.at2:
+                    sys.setprofile(inj.profiler)
             try:
                 cm.main()
             finally:
                 if inj is not None:
+                    sys.setprofile(None)
                     sys.settrace(None)
             res["status"] = 0
         except SystemExit as ex:
@@ -312,6 +367,8 @@ def _child(wfd, root, argv, cwd, kspec, inject, env, pre, post, want_events):
             res["outside_window"] = inj.outside_window
             if inj.fired is not None and "inject" not in res:
                 res["inject"] = inj.fired
+            if inj.fired2 is not None:
+                res["inject2"] = inj.fired2
             if inj.trace_lines is not None:
                 res["trace_lines"] = inj.trace_lines
         if post is not None:
